@@ -43,7 +43,7 @@ type ReplayResult struct {
 	Model     string   `json:"model_values,omitempty"`
 }
 
-const replayMaxLen = 6
+const replayMaxLen = 72
 
 type rq struct {
 	terms []string
